@@ -31,7 +31,9 @@ CONSTANTS
     RecheckAfterTemplate,   \* TRUE: curated solved rows are re-examined (the repaired code)
     MaxAdded,               \* bound on the number of completions
     Thresholds,             \* thresholds explored, in model units 0..2
-    ConfStrict              \* FALSE: solved iff conf >= t (the code); TRUE: mutant conf > t
+    ConfStrict,             \* FALSE: solved iff conf >= t (the code); TRUE: mutant conf > t
+    IncomingSolved,         \* values the 'solved' column may carry when the row arrives (a result fed back in)
+    ResetIncoming           \* TRUE: preprocessing sets solved to FALSE whatever arrives (preprocess.py:20)
 
 Sign == {-1, 0, 1}
 XSign == {-1, 0, 1, 2}      \* 2: the remaining imbalance has entries of both signs
@@ -70,7 +72,7 @@ Init ==
     /\ thr \in Thresholds
     /\ confO \in 0..2
     /\ cur = inp /\ added = 0
-    /\ solved = FALSE /\ by = Absent /\ issue = Absent /\ mcsKey = "absent"
+    /\ solved \in IncomingSolved /\ by = Absent /\ issue = Absent /\ mcsKey = "absent"
     /\ clabel = "unset" /\ ulabel = "unset" /\ conf = -1
     /\ validated = <<>> /\ memo = <<>>
     /\ stats = Stat0
@@ -97,7 +99,8 @@ Preprocess ==
     /\ pc = "preprocess"
     /\ stats' = [stats EXCEPT !.reaction_cnt = 1]
     /\ pc' = "input_validate"
-    /\ UNCHANGED <<inp, thr, confO, cur, added, solved, by, issue, mcsKey, clabel, ulabel, conf,
+    /\ solved' = IF ResetIncoming THEN FALSE ELSE solved
+    /\ UNCHANGED <<inp, thr, confO, cur, added, by, issue, mcsKey, clabel, ulabel, conf,
                    validated, memo>>
 
 InputValidate == pc = "input_validate" /\ Validate("input-balanced", TRUE, FALSE, "", "rule_based_1")
@@ -266,7 +269,7 @@ C18_Stats ==
       /\ stats.mcs_solved >= (IF by = "mcs-based" THEN 1 ELSE 0)
 
 \* the flag is monotone except for the confidence filter
-SolvedMonotone == [][solved /\ ~solved' => pc = "confidence"]_vars
+SolvedMonotone == [][solved /\ ~solved' => pc \in {"confidence", "preprocess"}]_vars
 \* a solved row's reaction is only changed by post-processing / the second
 \* rule-based run / the re-check
 SolvedFrame == [][solved /\ <<cur', added'>> # <<cur, added>>
